@@ -332,7 +332,16 @@ CHECKS = {
          "(option vector, shape, projection, outcome, header features, block layout) instantiated with seeded boundary values, "
          "written with osmium::io::Writer, read with osmium::io::Reader (1 and 4 pool threads), every field compared with Project; "
          "independent PBF framing parser (tools/pbf_framing.py) checks every BlobHeader/Blob/PrimitiveBlock against the format "
-         "limits, header features and independently decoded ids.",
+         "limits, header features and independently decoded ids. Extension (specs/FileSpec*.tla, checks/C01ext.py): what sits "
+         "upstream of the option vector is specified and bound too. FileSpec.tla: the meaning of a (file name, format string) pair "
+         "as [filename, format, compression, history, options] or a check() error - A-layer = the documented "
+         "[TYPE.][FORMAT.][COMPRESSION] suffix scheme with later-wins options, I-layer = osmium::io::File's parser as written; TLC "
+         "checks I => A for every name of <= 4 tokens over 12 (24) tokens, every format part of <= 3 tokens x options, <= 3 option "
+         "parts, <= 2 (3) setter calls, and every case is replayed on the real File (every accessor, check() verdict, exception "
+         "class and message). FileSpecMd.tla: metadata_options; FileSpecHeader.tla: Header/Options/Box::extend (joined_boxes = "
+         "bounding box of valid corners); FileSpecCrc.tla: the input of osmium::CRC<> is a function of the object's content only - "
+         "for every sub-item order, absent/empty lists, 7 physical construction variants and after PBF/XML/OPL round trips the "
+         "recorded byte stream equals the spec's feed and CRC_zlib equals crc32 of it.",
     design_ref="DESIGN.md section 4, C01, section 6 F7",
     note="Values are boundary tokens from a seeded pool, not the 64-bit/Unicode domain; codec fidelity is exercised, not enumerated. "
          "Domain = what the readers accept (XML ids strictly inside int64, uint32 attributes < 2^32-1, delta-coded neighbours differ "
@@ -340,7 +349,11 @@ CHECKS = {
          "PBF one joined header box / OPL no header, XML anonymous changeset user. Blob/file compression and thread count are passed "
          "through by the model and assigned by the check (quick: one combination per structural point; thorough: full product x 5 "
          "seeds). Block layout is compared as evidence only; the verdict uses limits, outcome and content. Open finding F7a (object "
-         "> 5 % of the blob limit after a nearly full block) is reported as KNOWN-FINDING.",
+         "> 5 % of the blob limit after a nearly full block) is reported as KNOWN-FINDING. Extension limits: File's A-layer is "
+         "claimed on the documented domain; outside it (stem read as suffix, trailing '.', a file called http/https, junk before a "
+         "known format tail, empty parts) the implementation-shaped layer is the oracle (named deviations); strings are token "
+         "sequences; CRC blind spots (changeset id of objects, ring roles/boundaries, string boundaries, item type) are part of the "
+         "spec; 'different content gives a different checksum' is a sanity check on ~100 contents, not a collision claim.",
     technique="TLA+ spec + TLC design check; TLC-exported behaviours replayed on the real Writer/Reader pair; independent format-limit parser"),
 
  "C10": dict(
